@@ -199,3 +199,20 @@ func (d *Disjunct) EntryInt(v ssa.Value) *lin.Lin {
 	}
 	return d.it.intLin(d.d, f, v)
 }
+
+// EntryMemInt is MemInt evaluated in the entry function's frame (p is a value of the entry function).
+func (d *Disjunct) EntryMemInt(p ssa.Value, path string) *lin.Lin {
+	f := d.f
+	for int(f) >= 0 && int(f) < len(d.it.finfo) && d.it.finfo[f].parent >= 0 {
+		f = d.it.finfo[f].parent
+	}
+	a, ok := d.it.addrOf(d.d, f, p)
+	if !ok {
+		return nil
+	}
+	a.path += path
+	if c, ok := d.d.mem[a.key()]; ok && c.val.kind == kInt {
+		return c.val.lin
+	}
+	return nil
+}
